@@ -220,7 +220,7 @@ func c14r3(r *R) {
 			gs := c.guardStrs(i.Block())
 			closed := false
 			for _, g := range gs {
-				if (strings.HasPrefix(g, "-select") && strings.Contains(g, "#")) {
+				if strings.HasPrefix(g, "-select") && strings.Contains(g, "#") {
 					closed = true
 				}
 			}
